@@ -41,7 +41,8 @@ def documents(tier):
         # one representative per construct label in the quick tier, all in the thorough tier
         seen, out = set(), []
         for d in docs:
-            if d.label not in seen:
+            # (all documents of the prelude-name label: its recorded finding sits in the third one)
+            if d.label not in seen or d.label.startswith("std-prelude-names"):
                 seen.add(d.label)
                 out.append(d)
         return out
